@@ -39,9 +39,9 @@ CHECKS = {
     note="Trusted: clang front end, gmgir lowering, call graph (direct calls + virtual overriders). Not decided: accuracy/stability, n=2 corner coincidence.",
     ref="DESIGN.md section 4 / C14"),
  "C17": dict(
-    level="other", technique="static analysis: abstract interpretation (integers concrete, doubles erased) of the index functions from source on a case-complete family of grid shapes; structural rules",
-    text="index/fastIndex/index(MultiIndex)/both multiIndex variants/wrapThetaIndex are interpreted from source on every node of shapes nr 2..12 x ntheta (powers of two and not) x every split 0..nr: agreement, bijection onto 0..N-1, inversion, periodic wrap on both code paths. The functions are piecewise linear with predicates r<nsc and node<ncirc only, so the family realises every case. Split identities hold on every path of initializeLineSplitting (float comparisons forked both ways); the power-of-two flag is recomputed after every write of ntheta_; coarsening reads index 2i with sizes (nr+1)/2 and ntheta/2+1; constructors validate before use. Every array subscript met on the way is bounds-checked.",
-    note="Trusted: clang front end, gmgir lowering, own IR interpreter (C integer semantics). Not decided: neighbour/spacing queries agreeing with coordinates as floating-point values.",
+    level="other", technique="static analysis: abstract interpretation (integers concrete, doubles erased or exact symbolic) of the index and query functions from source on a case-complete family of grid shapes; structural rules",
+    text="index/fastIndex/index(MultiIndex)/both multiIndex variants/wrapThetaIndex are interpreted from source on every node of shapes nr 2..12 x ntheta (powers of two and not) x every split 0..nr: agreement, bijection onto 0..N-1, inversion, periodic wrap on both code paths. The functions are piecewise linear with predicates r<nsc and node<ncirc only, so the family realises every case. Split identities hold on every path of initializeLineSplitting (float comparisons forked both ways); the power-of-two flag is recomputed after every write of ntheta_; coarsening reads index 2i with sizes (nr+1)/2 and ntheta/2+1; constructors validate before use. Every array subscript met on the way is bounds-checked. With symbolic coordinates (exact values): initializeDistances stores first differences, radialSpacing/angularSpacing/adjacentNeighborDistances return the coordinate differences (periodic in theta, 0 beyond the radial ends), adjacent/diagonal neighbour queries return index(i+-1, wrap(j+-1)) or -1, polarCoordinates returns (r_i, theta_j).",
+    note="Trusted: clang front end, gmgir lowering, own IR interpreter (C integer semantics; exact rational values for doubles in the query rule). Not decided: the spacing statements after floating-point rounding.",
     ref="DESIGN.md section 4 / C17"),
  "C18": dict(
     level="other", technique="static analysis: taint analysis with bound-evidence over the grid generators; abstract interpretation of chooseNumberOfLevels; symbolic interpretation of the uniform generator in exact arithmetic; interpretation of the grid writer/reader over abstract text streams; structural constructor/endpoint rules",
